@@ -217,6 +217,10 @@ def run_check(prop, tier, seed):
         proof['ok'] = False
         proof['failed'].append('grep gate: %s' % gate[:5])
 
+    import sentinel
+    cur_d, rec_d, changed = sentinel.drift(prop)
+    if changed and tier == 'quick':
+        os.environ['VERIF_BOOST'] = '3'      # anchored source differs from the text the model was written against
     rng = random.Random(seed)
     cfgs = mod.CONFIGS_THOROUGH if (tier == 'thorough' and hasattr(mod, 'CONFIGS_THOROUGH')) else mod.CONFIGS
     workers = [C.Worker(prop, **cfg) for cfg in cfgs]
@@ -328,6 +332,8 @@ def run_check(prop, tier, seed):
             'known_findings_hit': sorted(known_hits),
             'proof_failures': proof['failed'],
             'extraction_cross_check': xc, 'coqchk': chk,
+            'source_sentinel': {'digest': cur_d, 'recorded': rec_d, 'anchored_source_changed': changed,
+                                'note': 'never a verdict; a changed digest triples the random case budget of the quick tier'},
         },
         'assumptions': list(getattr(mod, 'ASSUMPTIONS', [])),
         'wall_s': timer.s(), 'violations': len(violations) + (0 if proof['ok'] else 1),
